@@ -30,12 +30,42 @@ pub enum AnyGT<T: Float> {
     NanPocket,
 }
 
+thread_local! {
+    /// Remaining log-density evaluations the harness targets grant the CURRENT thread (-1 = unlimited). A loop in the
+    /// library that never ends (e.g. in the step-size search, which has no hook of its own) keeps evaluating the target;
+    /// when the budget is used up the target panics with "runaway evaluations" and the harness turns that into a verdict.
+    static EVAL_BUDGET: std::cell::Cell<i64> = const { std::cell::Cell::new(-1) };
+}
+pub fn with_eval_budget<R>(n: i64, f: impl FnOnce() -> R) -> R {
+    struct Reset;
+    impl Drop for Reset {
+        fn drop(&mut self) {
+            EVAL_BUDGET.with(|b| b.set(-1));
+        }
+    }
+    let _g = Reset;
+    EVAL_BUDGET.with(|b| b.set(n));
+    f()
+}
+fn spend_eval() {
+    EVAL_BUDGET.with(|b| {
+        let v = b.get();
+        if v > 0 {
+            b.set(v - 1);
+        } else if v == 0 {
+            b.set(-1);
+            panic!("runaway evaluations: the target was evaluated more often than the budget allows");
+        }
+    });
+}
+
 impl<T, B> GradientTarget<T, B> for AnyGT<T>
 where
     T: Float + burn::tensor::ElementConversion + std::fmt::Debug + burn::tensor::Element,
     B: AutodiffBackend,
 {
     fn unnorm_logp(&self, p: Tensor<B, 1>) -> Tensor<B, 1> {
+        spend_eval();
         match self {
             AnyGT::Gauss2D(g) => <DiffableGaussian2D<T> as GradientTarget<T, B>>::unnorm_logp(g, p),
             AnyGT::Rosen2D(r) => <Rosenbrock2D<T> as GradientTarget<T, B>>::unnorm_logp(r, p),
